@@ -85,6 +85,8 @@ func DecodedBitStreamParser_decode(bytes []byte) (*common.DecoderResult, error) 
 
 	for mode != Mode_PDA_ENCODE && bits.Available() > 0 {
 		var e error
+		segStart := len(result)
+		segMode := mode
 		if mode == Mode_ASCII_ENCODE {
 			mode, result, resultTrailer, e = decodeAsciiSegment(bits, result, resultTrailer, fnc1Positions)
 		} else {
@@ -108,6 +110,11 @@ func DecodedBitStreamParser_decode(bytes []byte) (*common.DecoderResult, error) 
 		}
 		if e != nil {
 			return nil, e
+		}
+		if segMode != Mode_BASE256_ENCODE {
+			// every segment but Base 256 (which converts by itself) appends ISO-8859-1
+			// bytes; the result is a Go string, so re-encode them as UTF-8
+			result = latin1ToUTF8(result, segStart)
 		}
 	}
 	if len(resultTrailer) > 0 {
@@ -559,4 +566,28 @@ func (m Mode) String() string {
 		return "ECI_ENCODE"
 	}
 	return ""
+}
+
+// latin1ToUTF8 re-encodes result[from:] from ISO-8859-1 bytes to UTF-8.
+func latin1ToUTF8(result []byte, from int) []byte {
+	high := false
+	for _, b := range result[from:] {
+		if b >= 0x80 {
+			high = true
+			break
+		}
+	}
+	if !high {
+		return result
+	}
+	tail := append([]byte{}, result[from:]...)
+	result = result[:from]
+	for _, b := range tail {
+		if b < 0x80 {
+			result = append(result, b)
+		} else {
+			result = append(result, 0xC0|b>>6, 0x80|b&0x3F)
+		}
+	}
+	return result
 }
